@@ -94,7 +94,9 @@ PROPS = {
         "trusted_base": ["Go index/slice panics transcribed as Res.panic in Model/Phy.lean, Model/Mac.lean"],
     },
     "C12": {
-        "theorems": thms(P + "C12", ["C12_decode_fields", "C12_reject_version", "C12_reject_mtype", "C12_contained"]),
+        "theorems": {**thms(P + "C12", ["C12_decode_fields", "C12_reject_version", "C12_reject_mtype", "C12_contained"]),
+                     **thms(P + "C12Enc", ["C12_marshal_is_layout", "C12_roundtrip"]),
+                     "LospanVerif.Proofs.Frame": ["LospanVerif.Spec.Frame.parse_layout"]},
         "ties": thms(T + "Protocol", ["tie_minimumMessageSize", "tie_maxFOptsLen", "tie_maxPayloadSize", "tie_mtypes", "tie_maxSupportedVersion", "tie_devAddrMasks"]),
         "engines": ["phydec", "phyenc"],
         "assumptions": [],
@@ -109,7 +111,7 @@ PROPS = {
         "trusted_base": ["LoRaWAN 1.0 sections 5 and 14 command layouts transcribed as Spec/MacLayout.lean"],
     },
     "C15": {
-        "theorems": thms(P + "C15", ["C15_pull_ack", "C15_push_ack", "C15_rxpk_forwarded", "C15_unmarshal_total", "C15_unmarshal_marshal"]),
+        "theorems": thms(P + "C15", ["C15_pull_ack", "C15_push_ack", "C15_rxpk_forwarded", "C15_unmarshal_total", "C15_unmarshal_marshal", "C15_marshal_unmarshal"]),
         "ties": thms(T + "Gateway", ["tie_identifiers", "tie_freqTable"]),
         "engines": ["gw", "gwcodec"],
         "assumptions": ["encoding/json and encoding/base64 are trusted: the model receives the parsed rxpk entries, the implementation the JSON text built from them",
@@ -221,9 +223,9 @@ MANIFEST_TEXT = {
         "technique": "Lean 4 proof (totality by induction, cursor invariant) + regenerated-facts tie + differential correspondence",
     },
     "C12": {
-        "level": "Lean theorems C12_decode_fields / C12_contained / C12_reject_*: for every byte string, an accepted data frame parses under the independent LoRaWAN 1.0 spec and every reported field equals the spec's (port-0 remainder: containment), nothing reported beyond the slice, unsupported version/type rejected. Encode direction and round trip decided by correspondence against the Lean spec layout (theorem pending).",
-        "note": "model hand-written; encode-direction theorem not yet proved (decided by correspondence + spec oracle only)",
-        "technique": "Lean 4 proof (model = spec parse, list/cursor arithmetic by omega, byte laws by decide) + differential correspondence",
+        "level": "Lean theorems, both directions: for every byte string an accepted data frame parses under the independent LoRaWAN 1.0 spec and every reported field equals the spec's (C12_decode_fields; port-0 remainder: containment), nothing is reported beyond the slice (C12_contained), unsupported version/type are rejected; for every value the library encodes the octets are exactly the spec layout of the frame it denotes (C12_marshal_is_layout); the spec's parse inverts its layout on well-formed frames (Spec.Frame.parse_layout), hence decode(encode(p)) reports the encoded fields (C12_roundtrip). Tied by constants/masks facts and by differential runs in both directions (all MHDR/FCtrl values, FOpts shapes, ports, lengths 0..242).",
+        "note": "model hand-written; C12_roundtrip assumes the decode succeeds (totality of decode on the library's own output is exercised by the phyenc engine, not proved)",
+        "technique": "Lean 4 proof (model = spec parse and model = spec layout, list/cursor arithmetic by omega, byte laws by decide) + differential correspondence",
     },
     "C13": {
         "level": "Lean theorems: each of the 22 commands has the spec's CID/direction, its declared length, the spec's octets for all fitting values (C13_layout), decodes back (C13_roundtrip_fields); Add preserves limit/direction/CID-order for every offer sequence (C13_reachable_inv); encode writes exactly EncodedLength bytes. Tied by the regenerated CID/type/Length table and by exhaustive (<=12 bits quick, <=24 bits thorough) differential encode/decode through the public frame path.",
